@@ -10,6 +10,7 @@ import (
 	"github.com/aws/aws-sdk-go-v2/service/s3/types"
 
 	"github.com/versity/versitygw/internal/zzvf"
+	"github.com/versity/versitygw/internal/zzvfos"
 	"github.com/versity/versitygw/s3response"
 )
 
@@ -96,4 +97,46 @@ func VfWorldWithBucket() *Posix {
 	p := vfNewPosix(vfConfig{})
 	zzvf.Assert(p.CreateBucket(vfCtxOf("root"), &s3.CreateBucketInput{Bucket: vfStr("bkt")}, vfACL("root")) == nil, "setup-create-bucket")
 	return p
+}
+
+// VfSnapshotRoot records the whole gateway root (names, data, attributes) for a later byte-exact comparison.
+func VfSnapshotRoot() []vfSnapEntry {
+	var all, out []vfSnapEntry
+	vfSnapshot("/gw", zzvfos.M.Cwd, &all)
+	// an empty bookkeeping directory (".sgwtmp", created on demand and invisible through the API) is no change of any
+	// bucket, object or setting; anything left inside it is
+	for i, e := range all {
+		tmp := e.dir && len(e.path) > len(metaTmpDir) && e.path[len(e.path)-len(metaTmpDir)-1:] == "/"+metaTmpDir
+		if tmp && (i+1 == len(all) || len(all[i+1].path) <= len(e.path) || all[i+1].path[:len(e.path)+1] != e.path+"/") {
+			continue
+		}
+		out = append(out, e)
+	}
+	return out
+}
+
+// VfSnapshotsEqual compares two snapshots taken with VfSnapshotRoot.
+func VfSnapshotsEqual(a, b []vfSnapEntry) bool { return vfSnapEqual(a, b) }
+
+// VfSnapshotDiff names the first entry in which two snapshots differ ("" if none).
+func VfSnapshotDiff(a, b []vfSnapEntry) string {
+	for i := 0; i < len(a) || i < len(b); i++ {
+		if i >= len(a) {
+			rest := ""
+			for _, e := range b[i:] {
+				rest += " " + e.path
+			}
+			return "added:" + rest
+		}
+		if i >= len(b) {
+			return "removed: " + a[i].path
+		}
+		if a[i].path != b[i].path {
+			return "at " + a[i].path + " / " + b[i].path
+		}
+		if !vfSnapEqual(a[i:i+1], b[i:i+1]) {
+			return "changed: " + a[i].path
+		}
+	}
+	return ""
 }
